@@ -497,7 +497,13 @@ def evaluate(cases, stats=None):
             if not any(close(s, e, tol) for e, tol, _ in exp):
                 v["bad"].append({"clause": clause_of(sem, a, b, lbl), "row": [a, b, s],
                                  "expected": [[e, what] for e, _, what in exp]})
-            elif sem == "corr32" and len(orients) == 2:
+                continue
+            fl = [abs(s - e) / tol for e, tol, _ in exp if isinstance(e, float) and isinstance(s, float) and tol > 0
+                  and not math.isnan(e) and not math.isnan(s)]
+            if fl:
+                wr = stats.setdefault("worst_error_over_tolerance", {})
+                wr[sem] = max(wr.get(sem, 0.0), round(min(fl), 6))
+            if sem == "corr32" and len(orients) == 2:
                 e0, t0, _ = memo[(sem, i, j)][0]
                 stats["nonlabel_rows_first_is_input"] = stats.get("nonlabel_rows_first_is_input", 0) + (1 if close(s, e0, t0) else 0)
                 stats["nonlabel_rows"] = stats.get("nonlabel_rows", 0) + 1
@@ -550,6 +556,15 @@ def shrink(case, bad):
 # --------------------------------------------------------------------------------------------------
 
 def check(run, replay):
+    try:
+        _check(run, replay)
+    finally:
+        # a run against a scratch tree (mutation self-test) must not leave its translation in the shared coq/Gen
+        if os.path.realpath(vlib.REPO) != "/repo" and os.path.isdir("/repo/outrank"):
+            translate_dispatch.run("/repo", GEN)
+
+
+def _check(run, replay):
     # 1. translators (from the repo under test)
     ok_t, msgs, doc = translate_dispatch.run(vlib.REPO, GEN)
     run.oblige("translator:tools/translate_dispatch.py (Gen/Dispatch.v, Gen/DocNames.v)", ok_t, "; ".join(msgs))
@@ -582,8 +597,8 @@ def check(run, replay):
                 for h in heur:
                     for to in (True, False):
                         cases.append(dict(c, heuristic=h, target_only=to, entry=c.get("entry", "mrg")))
-        nframes = 36 if run.tier == "quick" else 160
-        nbig = 3 if run.tier == "quick" else 12
+        nframes = 36 if run.tier == "quick" else 420
+        nbig = 3 if run.tier == "quick" else 30
         for i in range(nframes):
             fr = gen_frame(run.rng, run.tier, big=(i < nbig))
             kinds = fr.pop("kinds")
